@@ -3,7 +3,11 @@
 The harness integerises the log-odds matrix with the same numpy.round the code uses and hands
 the integer matrix to Coq together with the implementation's table, each float entry x
 converted exactly (the float 2.0**x as m * 2^e).  All comparing is done inside Coq."""
+import json
 import math
+import os
+import subprocess
+import sys
 
 import numpy
 
@@ -57,14 +61,96 @@ def cell(x):
     return [num, -(den.bit_length() - 1)]
 
 
-def run_impl(inp):
+def run_local(inp):
     from tangermeme.tools.fimo import _pwm_to_mapping
     try:
-        lp = log_pwm_of(inp)
-        sm, tab = _pwm_to_mapping(lp, float(inp['bin']))
+        if inp['kind'] == 'fimo':
+            sm, tab = fimo_table(inp)
+        else:
+            lp = log_pwm_of(inp)
+            sm, tab = _pwm_to_mapping(lp, float(inp['bin']))
         return {'ok': True, 'smallest': int(sm), 'cells': [cell(float(x)) for x in tab]}
     except Exception as e:
         return {'ok': False, 'err': repr(e)[:200]}
+
+
+def fimo_table(inp):
+    """the table fimo() itself uses for motif 0 in its LAST call of a sequence of calls on the same
+    motif (earlier calls: inp['pre'], each overriding eps / bin): observed at the _fast_hits call
+    boundary by wrapping the module attribute at run time (nothing in /repo is touched)"""
+    import torch
+    import tangermeme.tools.fimo as F
+    rec = {}
+    orig = F._fast_hits
+
+    def spy(X, cl, pwm, pl, thr, bin_size, smallest, pv, pvl):
+        rec['t'] = (int(smallest[0]), numpy.array(pv[int(pvl[0]):int(pvl[1])], dtype=numpy.float64))
+        return orig(X, cl, pwm, pl, thr, bin_size, smallest, pv, pvl)
+
+    tdt = torch.float32 if inp.get('dtype') == 'f32' else torch.float64
+    motifs = {'m0': torch.tensor(inp['pwm'], dtype=tdt)}
+    X = torch.zeros(1, 4, 12)
+    for i in range(12):
+        X[0, (i * 7 + 3) % 4, i] = 1
+    F._fast_hits = spy
+    try:
+        for ov in list(inp.get('pre', [])) + [{}]:
+            c = dict(inp, **ov)
+            F.fimo(motifs, X, bin_size=c['bin'], eps=c['eps'], threshold=0.01,
+                   reverse_complement=bool(c.get('rc', False)))
+    finally:
+        F._fast_hits = orig
+    return rec['t']
+
+
+# compiled numba kernels do not bounds-check: every implementation call runs in one long-lived
+# worker process; if the interpreter dies the case is a failing input (outcome "raised/crashed"),
+# the worker is restarted for the next case
+_WORKER = None
+
+
+def _worker():
+    global _WORKER
+    if _WORKER is None or _WORKER.poll() is not None:
+        env = dict(os.environ, VERIF_FIMO_WORKER='1')
+        _WORKER = subprocess.Popen([sys.executable, '-W', 'ignore', '-m', 'harness.c11', '--worker'],
+                                   stdin=subprocess.PIPE, stdout=subprocess.PIPE,
+                                   stderr=subprocess.DEVNULL, text=True, cwd=C.VERIF, env=env)
+    return _WORKER
+
+
+def run_impl(inp):
+    global _WORKER
+    if os.environ.get('VERIF_FIMO_WORKER') == '1':
+        return run_local(inp)
+    w = _worker()
+    line = ''
+    try:
+        w.stdin.write(json.dumps(inp) + '\n')
+        w.stdin.flush()
+        while True:
+            line = w.stdout.readline()
+            if not line or line.startswith('@@'):
+                break
+    except (BrokenPipeError, OSError):
+        line = ''
+    if not line:
+        try:
+            w.kill()
+        except Exception:
+            pass
+        rc = w.wait()
+        _WORKER = None
+        return {'ok': False, 'crash': True,
+                'err': 'CRASH: the interpreter died during the call (exit %s)' % rc}
+    return json.loads(line[2:])
+
+
+def worker_main():
+    for line in sys.stdin:
+        out = run_local(json.loads(line))
+        sys.stdout.write('@@' + json.dumps(out) + '\n')
+        sys.stdout.flush()
 
 
 def cell_lit(c):
@@ -99,7 +185,7 @@ def hist_key(inp, out):
     w = width(inp)
     wb = 'w1' if w == 1 else 'w2-7' if w <= 7 else 'w8-30'
     n = len(out['cells']) if out.get('ok') else -1
-    nb = 'err' if n < 0 else 'len<100' if n < 100 else 'len<1000' if n < 1000 else 'len>=1000'
+    nb = ('crash' if out.get('crash') else 'err') if n < 0 else 'len<100' if n < 100 else 'len<1000' if n < 1000 else 'len>=1000'
     return '%s/%s/%s/%s' % (inp['kind'], inp.get('dtype', 'f64'), wb, nb)
 
 
@@ -176,6 +262,37 @@ def generate(tier, rng):
                 cols = [rand_col(rng, kind) for _ in range(w)]
                 yield {'kind': 'sys-%s' % kind, 'pwm': norm(cols), 'bin': b, 'eps': eps,
                        'dtype': 'f32' if (w + len(str(kind))) % 2 else 'f64'}
+    # columns whose every integerised entry is positive (uniform / near-uniform column, large
+    # pseudocount, fine bins): the lowest reachable score RISES at that column; at position 0,
+    # in the middle and last, and everywhere
+    for w in (2, 3, 4, 5, 6):
+        for pos in ('first', 'mid', 'last', 'all'):
+            for b, eps in ((0.01, 0.1), (0.02, 0.05), (0.1, 0.1), (0.05, 0.01)):
+                if quick and (w + len(pos) + int(b * 100)) % 3:
+                    continue
+                cols = [rand_col(rng, rng.choice([0.3, 1.0, 'zeros', 'onehot'])) for _ in range(w)]
+                where = {'first': [0], 'mid': [w // 2], 'last': [w - 1], 'all': list(range(w))}[pos]
+                for j in where:
+                    cols[j] = [0.25 + rng.uniform(-0.02, 0.02) for _a in range(4)] if rng.random() < 0.5 else [0.25] * 4
+                yield {'kind': 'poscol-%s' % pos, 'pwm': norm(cols), 'bin': b, 'eps': eps,
+                       'dtype': 'f32' if (w + len(pos)) % 2 else 'f64'}
+    # the table fimo() uses in the second of two calls on the same motif that differ in eps / bin
+    # (cross-call state: caches keyed on the raw PWM, module globals)
+    for _ in range(10 if quick else 60):
+        w = rng.choice([2, 3, 4, 5, 6])
+        c = rand_case(rng, w, 1500)
+        c['dtype'] = 'f32' if rng.random() < 0.7 else 'f64'
+        what = rng.choice(['eps', 'eps', 'bin', 'rc'])
+        if what == 'eps':
+            pre = [{'eps': rng.choice([e for e in EPS if e != c['eps']])}]
+        elif what == 'bin':
+            pre = [{'bin': rng.choice([x for x in (0.1, 0.2, 0.5, 1.0) if x != c['bin']])}]
+        else:
+            pre = [{'rc': True}]
+        if rng.random() < 0.3:
+            pre.append({'eps': rng.choice(EPS)})
+        c.update(kind='fimo', pre=pre, rc=False)
+        yield c
     n = 260 if quick else 1500
     for _ in range(n):
         w = rng.choice([1, 1, 2, 2, 3, 3, 4, 5, 6, 7])
@@ -205,3 +322,7 @@ def shrink(inp):
 def search(rng, disagreeing):
     for _ in range(200):
         yield rand_case(rng, rng.choice([1, 2, 3, 4]), 600)
+
+
+if __name__ == '__main__' and '--worker' in sys.argv:
+    worker_main()
